@@ -9,10 +9,17 @@ namespace DUdp
 def natList (s : String) : List Nat :=
   if s == "-" || s == "" then [] else (s.splitOn ",").filterMap String.toNat?
 
+/-- an entry of `p4=` / `p6=`: the address as the response value holds it (4 or 16 bytes) ++ 2-byte port -/
 def peersOf (fam : Fam) (l : List Bytes) : List Peer :=
-  l.map fun b => match fam with
-    | .v4 => { id := [], port := Bytes.toNatBE (b.drop 4), ip := b.take 4, fam := .v4 }
-    | .v6 => { id := [], port := Bytes.toNatBE (b.drop 16), ip := b.take 16, fam := .v6 }
+  l.map fun b => { id := [], port := Bytes.toNatBE (b.drop (b.length - 2)), ip := b.take (b.length - 2), fam := fam }
+
+/-- the i-th generated peer of `p4gen=` / `p6gen=` (the harness's `genPeer`) -/
+def genPeer (fam : Fam) (i : Nat) : Peer :=
+  let tail : Bytes := [UInt8.ofNat (i / 65536 % 256), UInt8.ofNat (i / 256 % 256), UInt8.ofNat (i % 256)]
+  { id := [], port := i % 65535 + 1, fam := fam,
+    ip := match fam with
+      | .v4 => [10] ++ tail
+      | .v6 => [0x20, 0x01, 0x0d, 0xb8, 0, 0, 0, 0, 0, 0, 0, 0, 0] ++ tail }
 
 def logicOf (l : Line) : Except String Logic := do
   let kind := l.get "logic"
@@ -23,11 +30,13 @@ def logicOf (l : Line) : Except String Logic := do
     let incomplete ← l.nat "incomplete"
     let p4 ← l.bytesList "p4"
     let p6 ← l.bytesList "p6"
+    let p4g := (l.get? "p4gen").bind String.toNat? |>.getD 0
+    let p6g := (l.get? "p6gen").bind String.toNat? |>.getD 0
     let c0 ← l.nat "c0"
     let s0 ← l.nat "s0"
     let i0 ← l.nat "i0"
     pure { announce := fun _ => .ok { compact := false, complete := complete, incomplete := incomplete, interval := interval,
-                                       minInterval := 0, v4peers := peersOf .v4 p4, v6peers := peersOf .v6 p6 },
+                                       minInterval := 0, v4peers := peersOf .v4 p4 ++ (List.range p4g).map (genPeer .v4), v6peers := peersOf .v6 p6 ++ (List.range p6g).map (genPeer .v6) },
            scrape := fun r => .ok { files := (List.range r.infoHashes.length).map fun i =>
              { infoHash := r.infoHashes.getD i [], complete := (c0 + i) % 2^32, snatches := (s0 + 3 * i) % 2^32, incomplete := (i0 + 7 * i) % 2^32 } } }
   else
